@@ -1,0 +1,36 @@
+//! Verification hook (H3b): probe around every execution of a frame's render operation and of
+//! the composition step. Compiled only with `--cfg jxl_oxide_verif`.
+use std::sync::OnceLock;
+
+#[derive(Debug, Copy, Clone, Eq, PartialEq)]
+pub enum ProbeKind {
+    Render,
+    Blend,
+}
+
+/// `(frame index, kind, true on entry / false on exit)`
+pub type ProbeFn = fn(usize, ProbeKind, bool);
+
+static PROBE: OnceLock<ProbeFn> = OnceLock::new();
+
+/// Installs the probe callback. Only the first call has an effect.
+pub fn set_probe(f: ProbeFn) {
+    let _ = PROBE.set(f);
+}
+
+pub(crate) struct ProbeScope(usize, ProbeKind);
+
+impl Drop for ProbeScope {
+    fn drop(&mut self) {
+        if let Some(f) = PROBE.get() {
+            f(self.0, self.1, false);
+        }
+    }
+}
+
+pub(crate) fn probe_scope(frame_idx: usize, kind: ProbeKind) -> ProbeScope {
+    if let Some(f) = PROBE.get() {
+        f(frame_idx, kind, true);
+    }
+    ProbeScope(frame_idx, kind)
+}
